@@ -42,6 +42,8 @@ def subspaces(tier):
     out += C.structure_subspaces(s4, 2, True, only_flexible=True, mode="structure")
     out += C.structure_subspaces(D.shapes(3, 2), 3, True, only_flexible=True, mode="structure")
     out += C.structure_subspaces(s3 + [(2, 2)], 3, False, mode="blocks")
+    out += C.wide_subspaces(mode="structure", histories=("jobmajor",)) + C.tall_subspaces(mode="structure", histories=("jobmajor",))
+    out += C.wide_subspaces(mode="solved-a", pairs=((1, 8), (4, 5))) + C.tall_subspaces(mode="solved-a")
     out += C.structure_subspaces(D.shapes(3, 2), 2, True, only_flexible=True, mode="blocks")
     out += C.structure_subspaces(s4, 2, False, mode="solved-a")
     out += C.structure_subspaces(s3, 2, True, only_flexible=True, mode="solved-a")
